@@ -156,6 +156,13 @@ def run_ctor(case, stt):
         else:
             ttol = F(1, 10**9) if (case["start_form"] == "iso_string" and spec["t0"].get("scale", "utc") == "utc") else O.time_tol(0)  # 9 decimals
             check(abs(O.T(z.start_time) - O.T(G.mk_time(spec["t0"]))) <= ttol, "{}: start_time {}", what, z.start_time)
+            given = kw["start_time"]
+            if isinstance(given, Time):
+                # the Time is taken over with what belongs to it: its scale and (if any) the observatory location
+                check(z.start_time.scale == given.scale, "{}: start_time scale {} -> {}", what, given.scale, z.start_time.scale)
+                gl, zl = given.location, z.start_time.location
+                check((gl is None) == (zl is None) and (gl is None or all(abs((a - b).to_value(u.m)) < 1e-6 for a, b in zip(gl.to_geocentric(),
+                      zl.to_geocentric()))), "{}: the location attached to the given start time is not on the signal's start_time ({} -> {})", what, gl, zl)
         if cls != "Signal":
             nchan = z.shape[1]
             check(z.freq_align == ("center" if nchan % 2 else spec["align"]), "{}: freq_align {}", what, z.freq_align)
